@@ -121,11 +121,30 @@ def run_config(args):
                    dict(detail0, **kw)))
 
     users = {}
+    step_errors = []
+    cache = root / 'cache' if mode == 'shared-cache' else None
+
+    def mk():
+        return W.make_repo(st, N=2, cache=cache)
 
     async def history():
         import copy
+        if cache is not None:
+            # the user's one cache directory has already served another, unencrypted repository
+            st0 = W.Store()
+            r0 = W.make_repo(st0, N=2, cache=cache)
+            with W.captured():
+                await r0.init(settings={'chunking': {'min_length': chunker[0], 'max_length': chunker[1]},
+                                        'hashing': dict(ha), 'encryption': None})
+                await r0.close()
+            r0 = W.make_repo(st0, N=2, cache=cache)
+            with W.captured():
+                await r0.unlock()
+                await r0.snapshot(paths=[src2], note='other repository')
+                await r0.list_snapshots()
+                await r0.close()
         # init: key to stdout
-        repo = W.make_repo(st, N=2)
+        repo = mk()
         with W.captured() as (o, e):
             res = await repo.init(password=PASSWORDS['A'], settings=copy.deepcopy(settings))
         stdout_all.append(o.getvalue() + e.getvalue())
@@ -137,7 +156,7 @@ def run_config(args):
         async def get(u):
             if mode in ('long-lived', 'stale-exists') and u in repos:
                 return repos[u]
-            r = W.make_repo(st, N=2)
+            r = mk()
             with W.captured():
                 await r.unlock(password=users[u].password, key=users[u].key)
             if mode in ('long-lived', 'stale-exists'):
@@ -147,11 +166,15 @@ def run_config(args):
         # add-key: shared (to file), independent (stdout), clone (to file)
         for new, shared, pw, to_file in (('B', True, PASSWORDS['B'], True), ('C', False, PASSWORDS['C'], False),
                                          ('A2', True, PASSWORDS['A'], True)):
-            r = await get('A')
             kpath = root / f'key-{new}.json' if to_file else None
-            with W.captured() as (o, e):
-                res = await r.add_key(password=pw, shared=shared, key_output_path=kpath,
-                                      settings={'encryption': {'kdf': dict(W.FAST_KDF)}})
+            try:
+                r = await get('A')
+                with W.captured() as (o, e):
+                    res = await r.add_key(password=pw, shared=shared, key_output_path=kpath,
+                                          settings={'encryption': {'kdf': dict(W.FAST_KDF)}})
+            except Exception as ex:
+                step_errors.append(f'add-key {new}: {ex!r}'[:200])
+                continue
             stdout_all.append(o.getvalue() + e.getvalue())
             kb = r.serialize(res.new_key)
             if to_file:
@@ -161,31 +184,47 @@ def run_config(args):
             keyfiles[new] = kb
             users[new] = W.User(new, pw, kb)
         names = []
+        # from here on a failing command does not end the history: whatever was written is still searched
         for u, src in (('A', src1), ('B', src2), ('C', src1), ('A', src2)):
-            r = await get(u)
-            with W.captured() as (o, e):
-                s = await r.snapshot(paths=[src], note=NOTE)
-            stdout_all.append(o.getvalue() + e.getvalue())
-            names.append((u, s.name))
+            if u not in users:
+                continue
+            try:
+                r = await get(u)
+                with W.captured() as (o, e):
+                    s = await r.snapshot(paths=[src], note=NOTE)
+                stdout_all.append(o.getvalue() + e.getvalue())
+                names.append((u, s.name))
+            except Exception as ex:
+                step_errors.append(f'snapshot by {u}: {ex!r}'[:200])
         for u in ('A', 'B', 'C'):
-            r = await get(u)
-            with W.captured() as (o, e):
-                await r.list_snapshots()
+            if u not in users:
+                continue
+            try:
+                r = await get(u)
+                with W.captured() as (o, e):
+                    await r.list_snapshots()
+            except Exception as ex:
+                step_errors.append(f'list-snapshots by {u}: {ex!r}'[:200])
             # listings legitimately show the caller's own names/notes: not scanned
-        r = await get('A')
-        with W.captured() as (o, e):
-            await r.delete_snapshots([names[0][1]], confirm=False)
-            await r.clean()
-        stdout_all.append(o.getvalue() + e.getvalue())
-        r = await get('C')
-        with W.captured() as (o, e):
-            await r.clean()
-        stdout_all.append(o.getvalue() + e.getvalue())
+        try:
+            r = await get('A')
+            with W.captured() as (o, e):
+                await r.delete_snapshots([names[0][1]], confirm=False)
+                await r.clean()
+            stdout_all.append(o.getvalue() + e.getvalue())
+            r = await get('C')
+            with W.captured() as (o, e):
+                await r.clean()
+            stdout_all.append(o.getvalue() + e.getvalue())
+        except Exception as ex:
+            step_errors.append(f'delete/clean: {ex!r}'[:200])
 
     try:
         W.run(history)
     except Exception as e:
-        bad('history-failed', err=repr(e)[:300])
+        step_errors.append(repr(e)[:300])
+    if 'A' not in users:
+        bad('history-failed', err=step_errors[:3])
         shutil.rmtree(root, ignore_errors=True)
         return 0, vs
 
@@ -329,6 +368,8 @@ def run_config(args):
     for name, body in all_objects.items():
         if name != 'config' and not name.startswith(('data/', 'snapshots/')):
             bad('unexpected-object', name=name)
+    if step_errors and not vs:
+        bad('history-failed', err=step_errors[:3])     # nothing disclosed, but not everything could be exercised
     shutil.rmtree(root, ignore_errors=True)
     return nscan, vs
 
@@ -341,10 +382,11 @@ def replay(case):
 def main():
     t = common.tier()
     chk = common.Check(PID, 'exploration')
+    chk.unexercised_whats = {'history-failed'}   # a failing command is not what C05 is about: reported as 'could not exercise'
     cases = []
     for ci in CIPHERS:
         for ha in HASHES:
-            for mode in ('fresh', 'long-lived'):
+            for mode in ('fresh', 'long-lived', 'shared-cache'):
                 cases.append((ci, ha, mode, (4, 8)))
     for ch in ((8, 16), (16, 16), (1, 4)):
         for ci in (CIPHERS[0], CIPHERS[3]):
@@ -362,7 +404,7 @@ def main():
                 'history': 'init, add-key shared/independent/clone, 4 snapshots with note, delete, clean x2'})
     chk.coverage.update({
         'evaluations': scanned, 'distinct_nontrivial': n,
-        'rule': 'every cipher x hash x {fresh, long-lived Repository} (+ chunker variants); evaluations = blobs searched (every '
+        'rule': 'every cipher x hash x {fresh, long-lived Repository, cache directory shared with an unencrypted repository} (+ chunker variants, stale existence answers); evaluations = blobs searched (every '
                 'payload ever written, names, key files, stdout); distinct = configurations',
         'configurations': n, 'secrets': ['file contents', 'file names/paths', 'note', 'metadata timestamps', 'content digests',
                                          'passwords', 'user keys', 'shared key', 'MAC key', 'KDF/chunker params'],
